@@ -91,6 +91,11 @@ func (a *Application) providerProxyHandler(w http.ResponseWriter, r *http.Reques
 		return
 	}
 
+	if decision := routingRejection(pr, endpoints); decision != nil {
+		a.handleRoutingRejection(w, pr, decision)
+		return
+	}
+
 	if len(endpoints) == 0 {
 		http.Error(w, fmt.Sprintf("No %s endpoints available", providerType), http.StatusNotFound)
 		return
